@@ -231,6 +231,29 @@ def check_comparisons(acc: Acc, ctx: Ctx) -> None:
                 break
 
 
+def check_min_max(acc: Acc, ctx: Ctx) -> None:
+    """min / max over all pairs of the near-tie lattice (incl. NaN, +-inf, signed zeros): the smaller / larger operand,
+    NaN as soon as one operand is NaN (like every arithmetic operator) - float calls and one array call."""
+    inf = float("inf")
+    lattice = [1.0, 1.0 - 2.0**-53, 1.0 + 2.0**-52, 1.0 - 1e-9, 0.999, 1.001, 0.0, -0.0, 5e-324, -1e-9, 1e6, -2.5, NAN, inf, -inf]
+    A, B = np.meshgrid(np.array(lattice), np.array(lattice), indexing="ij")
+    same_val = lambda a, b: a == b or (a != a and b != b)  # noqa: E731
+    for name, ref in (("min", F.FUNCTIONS["min"]), ("max", F.FUNCTIONS["max"])):
+        term = fl.Function.create("f", f"{name} ( x , y )", ctx.engine)
+        term.variables = {"y": B.ravel()}
+        got_arr = np.asarray(term.membership(A.ravel()), dtype=float)
+        for k, (a, b) in enumerate(zip(A.ravel(), B.ravel())):
+            term.variables = {"y": float(b)}
+            got = float(term.membership(float(a)))
+            want = ref(float(a), float(b))
+            acc.transitions += 1
+            acc.case(("minmax", name, k), nontrivial=(a != a) != (b != b) or (a == a and b == b and a != b))
+            if not same_val(got, want) or not same_val(float(got_arr[k]), want):
+                acc.violate("value", {"family": "minmax", "function": name}, {"formula": f"{name} ( x , y )", "family": "minmax", "x": float(a), "y": float(b)},
+                            want, [got, float(got_arr[k])], f"{name}({float(a)!r}, {float(b)!r}) = {got} (array element {float(got_arr[k])}), expected {want}")
+                break
+
+
 def check_construction_paths(acc: Acc, ctx: Ctx) -> None:
     """`variables resolve to the engine's current input/output values` for Function terms of INPUT and OUTPUT variables of
     engines obtained through every construction path (constructor, FLL import, copy, Python export)."""
@@ -423,6 +446,7 @@ def run_shard(tier: str, seed: int, shard):
         acc.guard({"formula": "x + i", "family": "variables"}, check_name_clashes, acc, ctx)
         acc.guard({"formula": "2.000 * b + x", "family": "paths"}, check_construction_paths, acc, ctx)
         acc.guard({"formula": "ge ( x , y )", "family": "comparison"}, check_comparisons, acc, ctx)
+        acc.guard({"formula": "max ( x , y )", "family": "minmax"}, check_min_max, acc, ctx)
     if shard == ("d", 0, 8):
         toks = ["x", "-", "2.000", "^", ".-", "y", "^", "0.500", "%", "i"]
         t = F.parse(toks)
@@ -444,7 +468,7 @@ def summarize(tier: str, seed: int, merged: dict) -> dict:
             "alone, under each unary operator, on each side of each binary operator and as argument of each signature "
             "class; (d) all chains of 4 binary operators over 5 operands and chains with one unary prefix at every operand "
             f"position ({3 if tier == 'quick' else 4} operators); 3 renderings; 4 scalar assignments + arrays; ill-formed "
-            "variants of (a, subsampled 1/8 for 2-node trees), (c), (d, 1/16); own-variable sharing, name clashes, and Function terms naming engine "
+            "variants of (a, subsampled 1/8 for 2-node trees), (c), (d, 1/16); min / max over all pairs of a 15-value lattice (NaN, infinities, signed zeros, near ties); own-variable sharing, name clashes, and Function terms naming engine "
             "variables in engines built through 6 construction paths. states = trees, transitions = loads + "
             "evaluations, traces = reference evaluations; non-trivial = >= 2 nodes and a finite value"
         ),
@@ -473,6 +497,9 @@ def replay(case: dict):
         return acc.violations
     if case.get("family") == "comparison":
         acc.guard(case, check_comparisons, acc, ctx)
+        return acc.violations
+    if case.get("family") == "minmax":
+        acc.guard(case, check_min_max, acc, ctx)
         return acc.violations
     if case.get("family") == "paths":
         acc.guard(case, check_construction_paths, acc, ctx)
